@@ -3246,6 +3246,9 @@ class Client:
                     # We haven't finished with this packet
                     self._out_packet.appendleft(packet)
             else:
+                # Nothing was accepted (e.g. a WebSocket frame is only partly flushed):
+                # keep the packet, it has to be offered again.
+                self._out_packet.appendleft(packet)
                 break
 
         with self._msgtime_mutex:
